@@ -107,7 +107,7 @@ class GraphLeg(object):
                 })
             perm = draw(st.permutations(list(range(n))))
             return {"nodes": nodes, "perm": list(perm), "repeated": draw(st.booleans()),
-                    "file_db": draw(st.booleans())}
+                    "file_db": draw(st.booleans()), "split": draw(st.sampled_from([0, 0, 1, 2, n // 2]))}
 
         return case()
 
@@ -129,6 +129,8 @@ class GraphLeg(object):
             labels.append("whitespace-in-id")
         if any(c in nd["id"] for nd in nodes for c in ",;=&% "):
             labels.append("reserved-in-id")
+        if case.get("split") and 0 < case["split"] < len(nodes):
+            labels.append("tail-through-update")
         return multi or dp >= 3 or child_first, labels
 
     def check(self, case, ctx):
@@ -142,7 +144,17 @@ class GraphLeg(object):
         lines = [tm.render_line(recs[j], d) for j in case["perm"]]
         path = ctx.write("g.gff3", "\n".join(lines) + "\n")
         dbfn = ctx.path("g.db") if case["file_db"] else ":memory:"
-        db = gffutils.create_db(path, dbfn)
+        k = case.get("split")
+        if k and 0 < k < len(lines):
+            # the tail of the file arrives later through update(): parents may be supplied after their children
+            p1 = ctx.write("g1.gff3", "\n".join(lines[:k]) + "\n")
+            p2 = ctx.write("g2.gff3", "\n".join(lines[k:]) + "\n")
+            db = gffutils.create_db(p1, dbfn)
+            for x in list(db.all_features())[:3]:  # look at it before it changes
+                list(db.children(x.id))
+            db.update(p2, make_backup=False)
+        else:
+            db = gffutils.create_db(path, dbfn)
         if case["file_db"]:
             db.conn.close()
             db = gffutils.FeatureDB(dbfn)
